@@ -13,12 +13,12 @@ from fractions import Fraction
 import core
 
 LEVEL = "proof"
-EXTRA_TARGETS = ["model/SizingTie.vo"]
+EXTRA_TARGETS = ["model/SizingTie.vo", "model/SizingConcTie.vo"]
 MODES = ["AUTO", "FIT", "FIT_TO_WIDTH", "ORIGINAL"]
 FAMS = {"block": "Text", "kitty": "Graphics", "iterm2": "Graphics"}
 HEADER = (
     "From Coq Require Import List ZArith PrimFloat.\nImport ListNotations.\n"
-    "From TI Require Import lib.FArith lib.FPrim model.Sizing model.SizingTie.\n"
+    "From TI Require Import lib.FArith lib.FPrim model.Sizing model.SizingTie model.SizingConc model.SizingConcTie.\n"
     "Open Scope Z_scope.\n"
 )
 BIG = 2 ** 30 - 1
@@ -232,6 +232,62 @@ def gen_h(rng, maxlen=8):
     return {"kind": "h", "fam": fam, "ow": ow, "oh": oh, "term": term0, "cell": list(cell) if cell else None, "ops": ops}
 
 
+# ---- concurrent sections
+def interleavings(a, b):
+    """every order of `a` grants to thread 0 and `b` grants to thread 1"""
+    if a == 0 or b == 0:
+        return [[0] * a + [1] * b]
+    return [[0] + r for r in interleavings(a - 1, b)] + [[1] + r for r in interleavings(a, b - 1)]
+
+
+def conc_case(rng, sched, pre=(), raises=(False, False), fam=None, post=None):
+    fam = fam or rng.choice(["block", "block", "kitty", "iterm2"])
+    cell = rng.choice([None, (10, 20), (9, 19), (7, 15), (8, 16)])
+    term = [rng.randint(20, 200), rng.randint(8, 80)]
+    if post is None:
+        post = [["resize", rng.randint(1, 250), rng.randint(1, 90), rng.choice([None, (10, 20), (9, 19), (12, 25)])],
+                ["render", False, "str"],
+                ["resize", rng.randint(1, 250), rng.randint(1, 90), None]]
+    return {"kind": "c", "fam": fam, "ow": rng.randint(1, 256), "oh": rng.randint(1, 256), "term": term,
+            "cell": list(cell) if cell else None,
+            "ops": [list(o) for o in pre] + [["conc", list(raises), [g if isinstance(g, list) else ["t", g] for g in sched]]] + post}
+
+
+def conc_cases(rng, quick):
+    cs = []
+    # every interleaving of two renders of a dynamically sized image (4 steps each)
+    for k, sched in enumerate(interleavings(4, 4)):
+        pre = [] if k % 3 else [["assign", "size", MODES[(k // 3) % 4]]]
+        cs.append(conc_case(rng, sched, pre=pre, raises=(k % 5 == 1, k % 7 == 2)))
+    # ... of a fixed-size image (3 steps each: nothing to fix), a set_size first
+    for k, sched in enumerate(interleavings(3, 3)):
+        if quick and k % 2:
+            continue
+        pre = [["set_size", rng.choice([None, rng.randint(1, 60)]), None, [0, -2], "call"]] if k % 2 == 0 else \
+            [["assign", "tuple", rng.randint(1, 90), rng.randint(1, 40)]]
+        cs.append(conc_case(rng, sched, pre=pre))
+    # three renders, random schedules (prefixes too: the rest runs to its end one after the other),
+    # the terminal resized between two steps
+    for _ in range(40 if quick else 1500):
+        n = rng.choice([2, 2, 3, 3, 4])
+        sched = [rng.randrange(n) for _ in range(rng.randint(0, 4 * n))]
+        for _ in range(rng.choice([0, 0, 1, 2])):
+            sched.insert(rng.randint(0, len(sched)),
+                         ["resize", rng.randint(1, 250), rng.randint(1, 90), rng.choice([None, (10, 20), (9, 19)])])
+        pre = []
+        r = rng.random()
+        if r < 0.3:
+            pre = [["assign", "size", rng.choice(MODES)]]
+        elif r < 0.45:
+            pre = [["set_size", None, rng.randint(1, 40), [0, -2], "call"]]
+        c = conc_case(rng, sched, pre=pre, raises=[rng.random() < 0.2 for _ in range(n)])
+        if rng.random() < 0.3:  # two sections in one history
+            sched2 = [rng.randrange(2) for _ in range(rng.randint(2, 8))]
+            c["ops"] += [["conc", [False, False], [["t", g] for g in sched2]], ["resize", rng.randint(1, 250), rng.randint(1, 90), None]]
+        cs.append(c)
+    return cs
+
+
 def V(fam, ow, oh, term, cell, ratio, frame, W, H):
     return {"kind": "v", "fam": fam, "ow": ow, "oh": oh, "term": list(term), "cell": list(cell) if cell else None,
             "ratio": None if ratio is None else float(ratio).hex(), "frame": list(frame), "calls": std_calls(W, H)}
@@ -351,15 +407,48 @@ def hcase_term(c, trace):
             f"h_obs := {core.coq_list(trace, ob)} |}}")
 
 
+def grant_term(g):
+    if g[0] == "t":
+        return f"GThread {g[1]}"
+    return f"GResize {core.z(g[1])} {core.z(g[2])} {ocell(g[3])}"
+
+
+def cop_term(o):
+    if o[0] == "conc":
+        raises = core.coq_list(o[1], lambda r: "true" if r else "false")
+        return f"CConc {raises} {core.coq_list(o[2], lambda g: '(' + grant_term(g) + ')')}"
+    return f"CSeq ({op_term(o)})"
+
+
+def ccase_term(c, trace):
+    def hob(t):
+        during = "None" if t["during"] is None else f"(Some {sizeval_term(t['during'])})"
+        return (f"{{| ho_outcome := {core.z(t['c'])}; ho_size := {sizeval_term(t['size'])}; ho_rs := {zpair(t['rs'])}; "
+                f"ho_rw := {core.z(t['rw'])}; ho_rh := {core.z(t['rh'])}; ho_during := {during} |}}")
+
+    def thr(x):
+        d = x[1]
+        return f"({core.z(x[0])}, " + ("None" if d is None or d[0] < 0 else f"Some {sizeval_term(d)}") + ")"
+
+    def ob(t):
+        return f"{{| co_h := {hob(t)}; co_thr := {core.coq_list(t.get('thr') or [], thr)} |}}"
+    return (f"{{| cc_fam := {FAMS[c['fam']]}; cc_ow := {core.z(c['ow'])}; cc_oh := {core.z(c['oh'])}; "
+            f"cc_term := {zpair(c['term'])}; cc_cell := {ocell(c['cell'])}; cc_ops := {core.coq_list(c['ops'], cop_term)}; "
+            f"cc_obs := {core.coq_list(trace, ob)} |}}")
+
+
 # ------------------------------------------------------------------ evaluation
 def evaluate(cases, tag="c04"):
     """-> (codes per case, errors, impl results)"""
     impl = core.run_impl_parallel("impl_c04.py", cases)
-    vt, vo, ht, ho = [], [], [], []
+    vt, vo, ht, ho, ct, co = [], [], [], [], [], []
     for i, (c, r) in enumerate(zip(cases, impl)):
         if c["kind"] == "v":
             vt.append(vcase_term(c, r["out"]))
             vo.append(i)
+        elif c["kind"] == "c":
+            ct.append(ccase_term(c, r["trace"]))
+            co.append(i)
         else:
             ht.append(hcase_term(c, r["trace"]))
             ho.append(i)
@@ -375,6 +464,11 @@ def evaluate(cases, tag="c04"):
         errors += errs
         for idx, code in bad:
             codes[ho[idx]] = code
+    if ct:
+        bad, errs = core.coq_shards(tag + "c", HEADER, ct, "ccase", "bad_c cases", shard=120)
+        errors += errs
+        for idx, code in bad:
+            codes[co[idx]] = code
     return codes, errors, impl
 
 
@@ -383,6 +477,9 @@ def diagnose(case, impl):
     if case["kind"] == "v":
         text = HEADER + f"Definition c : vcase := {vcase_term(case, impl['out'])}.\n" \
             "Set Printing Width 100000.\nEval vm_compute in (diag_v c).\n"
+    elif case["kind"] == "c":
+        text = HEADER + f"Definition c : ccase := {ccase_term(case, impl['trace'])}.\n" \
+            "Set Printing Width 100000.\nEval vm_compute in (diag_c c).\n"
     else:
         text = HEADER + f"Definition c : hcase := {hcase_term(case, impl['trace'])}.\n" \
             "Set Printing Width 100000.\nEval vm_compute in (diag_h c).\n"
@@ -423,11 +520,28 @@ def shrink(case, tag):
     cur = case
     for _ in range(12):
         cands = []
-        if cur["kind"] == "h":
+        if cur["kind"] in ("h", "c"):
             for k in range(len(cur["ops"])):
-                if len(cur["ops"]) > 1:
+                if len(cur["ops"]) > 1 and (cur["kind"] == "h" or sum(o[0] == "conc" for o in cur["ops"]) > (cur["ops"][k][0] == "conc")):
                     n = dict(cur)
                     n["ops"] = cur["ops"][:k] + cur["ops"][k + 1:]
+                    cands.append(n)
+            for k, o in enumerate(cur["ops"]):
+                if o[0] != "conc":
+                    continue
+                # a shorter schedule (the rest of each render then runs to its end, one render after
+                # the other), fewer threads, no raising renderer
+                for j in range(len(o[2]) - 1, -1, -1):
+                    n = dict(cur)
+                    n["ops"] = cur["ops"][:k] + [["conc", o[1], o[2][:j] + o[2][j + 1:]]] + cur["ops"][k + 1:]
+                    cands.append(n)
+                if len(o[1]) > 2 and all(g[0] != "t" or g[1] < len(o[1]) - 1 for g in o[2]):
+                    n = dict(cur)
+                    n["ops"] = cur["ops"][:k] + [["conc", o[1][:-1], o[2]]] + cur["ops"][k + 1:]
+                    cands.append(n)
+                if any(o[1]):
+                    n = dict(cur)
+                    n["ops"] = cur["ops"][:k] + [["conc", [False] * len(o[1]), o[2]]] + cur["ops"][k + 1:]
                     cands.append(n)
         for key in ("ow", "oh"):
             for f in (lambda x: x // 2, lambda x: x - 1, lambda x: x * 2 // 3):
@@ -471,14 +585,20 @@ def run(ctx):
     else:
         nv, nh = (1150, 330) if ctx.quick else (30000, 10000)
         cases = list(CORPUS) + list(H_CORPUS) + [gen_v(rng) for _ in range(nv)] \
-            + [gen_h(rng, 8 if i % 4 else 16) for i in range(nh)]
+            + [gen_h(rng, 8 if i % 4 else 16) for i in range(nh)] + conc_cases(rng, ctx.quick)
     codes, errors, impl = evaluate(cases)
 
     hist = {"kind": {}, "family": {}, "original": {}, "cell": {}, "cell_ratio": {}, "frame": {},
-            "history_ops": {}, "history_len": {}, "outcomes": {}, "auto_choice": {}, "fit_axis": {}}
+            "history_ops": {}, "history_len": {}, "outcomes": {}, "auto_choice": {}, "fit_axis": {},
+            "concurrent_sections": {"threads": {}, "size_setting_before": {}, "renders_overlapping": 0,
+                                    "a_renderer_saw_the_dynamic_member": 0, "a_render_started_on_a_temporarily_fixed_size": 0,
+                                    "resize_inside": 0, "raising_renderer": 0}}
 
     def bump(k, v):
         hist[k][v] = hist[k].get(v, 0) + 1
+
+    def bump2(d, v):
+        d[v] = d.get(v, 0) + 1
 
     distinct = set()
     for c, r in zip(cases, impl):
@@ -506,8 +626,33 @@ def run(ctx):
                 bump("history_ops", op[0])
                 bump("outcomes", t["c"])
                 kinds.add(op[0])
-            # non-trivial: >= 3 ops, a size-setting op, an environment change and a render
-            if len(c["ops"]) >= 3 and kinds & {"set_size", "assign"} and kinds & {"resize", "ratio"} and "render" in kinds:
+            cc = hist["concurrent_sections"]
+            overlap = False
+            prev_size = [2, 0, 0]  # a fresh image: Size.FIT
+            for op, t in zip(c["ops"], r["trace"]):
+                if op[0] == "conc":
+                    n_thr = len(op[1])
+                    ts = [g[1] for g in op[2] if g[0] == "t"] + [i for i in range(n_thr) for _ in range(4)]
+                    firsts = {i: ts.index(i) for i in range(n_thr)}
+                    lasts = {i: [k for k, x in enumerate(ts) if x == i][3] for i in range(n_thr)}  # its 4th grant: ended
+                    # two renders overlap WITHOUT nesting: i starts, j starts, i ends, j ends
+                    ov = any(firsts[i] < firsts[j] < lasts[i] < lasts[j] for i in firsts for j in firsts if i != j)
+                    overlap = overlap or ov
+                    cc["renders_overlapping"] += ov
+                    bump2(cc["threads"], len(op[1]))
+                    bump2(cc["size_setting_before"], "dynamic" if prev_size[0] else "fixed")
+                    seen = [x[1] for x in t.get("thr") or []]
+                    cc["a_renderer_saw_the_dynamic_member"] += any(d and d[0] > 0 for d in seen)
+                    cc["a_render_started_on_a_temporarily_fixed_size"] += bool(prev_size[0] and len({tuple(d) for d in seen if d}) > 1)
+                    cc["resize_inside"] += any(g[0] == "resize" for g in op[2])
+                    cc["raising_renderer"] += any(op[1])
+                prev_size = t["size"]
+            # non-trivial: >= 3 ops, a size-setting op, an environment change and a render; a history with a
+            # concurrent section: two renders of it overlap and the terminal is resized afterwards
+            if c["kind"] == "c":
+                if overlap and "resize" in kinds:
+                    distinct.add(signature(c))
+            elif len(c["ops"]) >= 3 and kinds & {"set_size", "assign"} and kinds & {"resize", "ratio"} and "render" in kinds:
                 distinct.add(signature(c))
 
     mismatches, failures = [], []
@@ -520,7 +665,7 @@ def run(ctx):
             if len(failures) >= 8:
                 continue
             small = shrink(c, "c04s") if len(failures) < 1 and not ctx.replay else c
-            if small is c:
+            if small is c or small == c:
                 cd2, impl2 = [code], [impl[i]]
             else:
                 cd2, _, impl2 = evaluate([small], tag="c04r")
